@@ -20,7 +20,7 @@ func evalArgs(
 		kwargs, err, ok := unpackObjExpansion(argNode, env)
 		if ok {
 			if err != nil {
-				appendStackTrace(err, argNode.Source())
+				err = appendStackTrace(err, argNode.Source())
 				return []object.PanObject{}, nil, err
 			}
 			unpackedKwargs.AddPairs(kwargs)
@@ -31,7 +31,7 @@ func evalArgs(
 		elems, err, ok := unpackArrExpansion(argNode, env)
 		if ok {
 			if err != nil {
-				appendStackTrace(err, argNode.Source())
+				err = appendStackTrace(err, argNode.Source())
 				return []object.PanObject{}, nil, err
 			}
 			args = append(args, elems...)
@@ -41,7 +41,7 @@ func evalArgs(
 		arg := Eval(argNode, env)
 
 		if err, ok := arg.(*object.PanErr); ok {
-			appendStackTrace(err, argNode.Source())
+			err = appendStackTrace(err, argNode.Source())
 			return []object.PanObject{}, nil, err
 		}
 
@@ -65,7 +65,7 @@ func unpackObjExpansion(
 
 	o := Eval(pref.Right, env)
 	if err, ok := o.(*object.PanErr); ok {
-		appendStackTrace(err, node.Source())
+		err = appendStackTrace(err, node.Source())
 		return nil, err, true
 	}
 
@@ -73,7 +73,7 @@ func unpackObjExpansion(
 	if !ok {
 		err := object.NewTypeErr(fmt.Sprintf(
 			"cannot use `**` unpacking for `%s`", o.Inspect()))
-		appendStackTrace(err, node.Source())
+		err = appendStackTrace(err, node.Source())
 		return nil, err, true
 	}
 
